@@ -672,6 +672,13 @@ def spread_args(n):
         counted("hr", A.Call(V("h"), [(V("xs"), True), (V("ys"), True), (I(1), False), (I(2), False)]))
 
 
+def for_object_literal(n):
+    """`for` over an object literal written in place (entries out of order, names repeated)"""
+    order = perm(n)
+    ents = [(key(j % (n // 2 + 1)), I(pos)) for pos, j in enumerate(order)]
+    return [A.For(A.lst(V("k"), V("v")), A.obj(*ents), [pr(V("k")), pr(V("v"))]), pr(A.obj(*[(k_, A.clone(v_)) for k_, v_ in ents]))]
+
+
 def for_object_large(n):
     return [A.Declare(V("o"), A.obj(*[(key((j * 37) % max(1, n)) + ("" if j < n else "x"), I(j)) for j in perm(n)])),
             A.Declare(V("prev"), S("")), A.Declare(V("sorted"), A.Bool(True)), A.Declare(V("c"), I(0)),
@@ -810,6 +817,7 @@ ENTRIES = {
     "alias_many": ("C05 C11", alias_many, [()], 1025, {}),
     "spread_args": ("C14 C13", spread_args, [()], 257, {}),
     "for_object_large": ("C07 C12 C19", for_object_large, [()], 513, {}),
+    "for_object_literal": ("C07 C12 C19", for_object_literal, [()], 129, {}),
     "repeat_calls": ("C14 C04 C05 C07 C19", repeat_calls, [()], 2049, {}),
     "all_chars": ("C15 C03 C12 C11", all_chars, [()], 0, {}),
     # rare values rather than sizes
